@@ -316,33 +316,34 @@ Proof.
   destruct Hx as [<-|Hx]; [left; reflexivity | right; eapply IHl; eauto].
 Qed.
 
+Lemma opaths_remove ty v : forall items ol k, opaths T ty v items = Some ol -> opaths T ty v (remove_at items k) = Some (remove_at ol k).
+Proof.
+  induction items as [|[nm|] r IH]; intros ol k; cbn [opaths].
+  - intros [= <-]. destruct k; reflexivity.
+  - destruct (idx_of T ty v nm) as [ix|] eqn:EX; [|discriminate]. destruct (opaths T ty v r) as [l|] eqn:EO; [|discriminate].
+    intros [= <-]. destruct k as [|k]; cbn [remove_at]; [exact EO|]. cbn [opaths]. rewrite EX, (IH l k eq_refl). reflexivity.
+  - destruct (opaths T ty v r) as [l|] eqn:EO; [|discriminate]. cbn [option_map].
+    intros [= <-]. destruct k as [|k]; cbn [remove_at]; [exact EO|]. cbn [opaths]. rewrite (IH l k eq_refl). reflexivity.
+Qed.
+
+Lemma somes_remove {A} : forall (ol : list (option A)) k, somes (remove_at ol k) = somes ol \/ exists j, somes (remove_at ol k) = remove_at (somes ol) j.
+Proof.
+  induction ol as [|[x|] r IH]; intros k.
+  - left. destruct k; reflexivity.
+  - destruct k as [|k]; cbn [remove_at].
+    + right. exists 0%nat. reflexivity.
+    + cbn [somes flat_map app]. change (flat_map _ (remove_at r k)) with (somes (remove_at r k)). change (flat_map _ r) with (somes r).
+      destruct (IH k) as [E|(j & E)]; rewrite E; [left; reflexivity | right; exists (S j); reflexivity].
+  - destruct k as [|k]; cbn [remove_at]; [left; reflexivity|].
+    cbn [somes flat_map app]. apply IH.
+Qed.
+
 Theorem remove_order_inv ty v items k : Ordered T ty v items -> Ordered T ty v (remove_at items k).
 Proof.
-  unfold Ordered, orderedb. revert k. induction items as [|[nm|] r IH]; intros k.
-  - destruct k; auto.
-  - cbn [paths_of]. destruct (idx_of T ty v nm) as [ix|] eqn:EX; [|discriminate].
-    destruct (paths_of T ty v r) as [l|] eqn:EP; [|discriminate]. intros H.
-    destruct k as [|k]; cbn [remove_at].
-    + rewrite EP. cbn [all_pairs_ok] in H. apply andb_true_iff in H as [_ H]. exact H.
-    + cbn [paths_of]. rewrite EX.
-      specialize (IH k). rewrite EP in IH.
-      cbn [all_pairs_ok] in H. apply andb_true_iff in H as [H1 H2]. specialize (IH H2).
-      destruct (paths_of T ty v (remove_at r k)) as [l'|] eqn:EP'; [|discriminate].
-      cbn [all_pairs_ok]. apply andb_true_iff. split; [|exact IH].
-      (* the paths of the shortened list are a sub-list of the old ones *)
-      rewrite forallb_forall in *. intros x Hx. apply H1.
-      clear - EP EP' Hx. revert k l l' EP EP' Hx. induction r as [|[m|] r IHr]; intros k l l' EP EP' Hx.
-      * destruct k; cbn [remove_at paths_of] in EP'; injection EP' as <-; destruct Hx.
-      * cbn [paths_of] in EP. destruct (idx_of T ty v m) as [im|] eqn:EM; [|discriminate].
-        destruct (paths_of T ty v r) as [lr|] eqn:ER; [|discriminate]. injection EP as <-.
-        destruct k as [|k]; cbn [remove_at] in EP'.
-        -- rewrite ER in EP'. injection EP' as <-. right. exact Hx.
-        -- cbn [paths_of] in EP'. rewrite EM in EP'. destruct (paths_of T ty v (remove_at r k)) as [lr'|] eqn:ER'; [|discriminate].
-           injection EP' as <-. destruct Hx as [<-|Hx]; [left; reflexivity | right; eapply IHr; eauto].
-      * cbn [paths_of] in EP. destruct k as [|k]; cbn [remove_at] in EP'.
-        -- rewrite EP in EP'. injection EP' as <-. exact Hx.
-        -- cbn [paths_of] in EP'. eapply IHr; eauto.
-  - cbn [paths_of]. intros H. destruct k as [|k]; cbn [remove_at]; [exact H|]. cbn [paths_of]. apply IH. exact H.
+  unfold Ordered, orderedb. rewrite !paths_of_opaths.
+  destruct (opaths T ty v items) as [ol|] eqn:EO; cbn [option_map]; [|discriminate].
+  rewrite (opaths_remove ty v items ol k EO). cbn [option_map]. intros H.
+  destruct (somes_remove ol k) as [E|(j & E)]; rewrite E; [exact H | apply all_pairs_ok_remove; exact H].
 Qed.
 
 End Inv.
@@ -355,14 +356,14 @@ Lemma valid_loop_spec n v : forall l w r w',
                vi_allowed vi = match r0 with OK _ => true | ER _ => false end.
 Proof.
   induction l as [|[[[name et] mask] nm] l IH]; intros w r w' H.
-  - cbn [valid_loop] in H. apply wret_inv in H as [[= <-] ->]. split; [reflexivity|]. intros vi [].
+  - cbn [valid_loop] in H. apply wret_inv in H as [[= ->] ->]. split; [reflexivity|]. intros vi [].
   - cbn [valid_loop] in H. destruct (compatible v mask).
     + unfold wbind at 1 in H. unfold wcatch in H.
       destruct (calc_element_insert_range T n name v w) as [[r0 w1]| |] eqn:EC; try discriminate.
       pose proof (calc_ro _ _ _ _ _ _ EC) as ->.
       unfold wbind at 1 in H.
       destruct (valid_loop T n v l w) as [[[tl|er] w2]| |] eqn:EL; try discriminate.
-      apply wret_inv in H as [[= <-] ->].
+      apply wret_inv in H as [[= ->] ->].
       destruct (IH _ _ _ EL) as [-> IH2]. split; [reflexivity|].
       intros vi [<-|Hin]; [|apply IH2; exact Hin]. cbn [vi_name vi_allowed]. exists r0. split; [exact EC|reflexivity].
     + apply IH. exact H.
